@@ -98,6 +98,8 @@ def call_builtin(fr, f, args: list, kwargs: dict, node: ast.AST | None) -> Any:
     if key in I.stubs:
         return I.stubs[key](fr, None, args, kwargs)
 
+    if name.startswith("re."):
+        return _re_call(fr, name[3:], None, args, kwargs, node)
     if name == "len":
         (v,) = args
         if isinstance(v, (list, tuple, dict, set, frozenset, str)):
@@ -170,9 +172,9 @@ def call_builtin(fr, f, args: list, kwargs: dict, node: ast.AST | None) -> Any:
     if name in ("set", "frozenset"):
         items = fr.iterate(args[0], True) if args else []
         try:
-            return frozenset(items)
+            return set(items) if name == "set" else frozenset(items)
         except TypeError:
-            raise pai.PyExc("TypeError", ("unhashable",), node)
+            raise pai.really_unhashable(tuple(items), node)
     if name == "dict":
         d = HDict()
         if args:
@@ -455,6 +457,32 @@ def call_method(fr, recv: Any, name: str, args: list, kwargs: dict, node: ast.AS
         if name == "count":
             return recv.count(args[0])
         raise AnalysisError(f"tuple method {name}")
+    if isinstance(recv, set) and name in ("add", "discard", "remove", "update", "clear"):
+        if name == "add":
+            recv.add(args[0])
+        elif name == "discard":
+            recv.discard(args[0])
+        elif name == "remove":
+            if args[0] not in recv:
+                raise pai.PyExc("KeyError", (args[0],), node)
+            recv.remove(args[0])
+        elif name == "update":
+            for a in args:
+                recv.update(fr.iterate(a, True))
+        else:
+            recv.clear()
+        return None
+    if isinstance(recv, (set, frozenset)) and name in ("intersection", "difference", "symmetric_difference", "issubset", "issuperset", "isdisjoint", "copy"):
+        others = [frozenset(fr.iterate(a, True)) for a in args]
+        base = frozenset(recv)
+        if name == "copy":
+            return set(recv) if isinstance(recv, set) else recv
+        if name in ("issubset", "issuperset", "isdisjoint"):
+            return getattr(base, name)(others[0])
+        out_s = base
+        for o_ in others:
+            out_s = getattr(out_s, name)(o_)
+        return out_s
     if isinstance(recv, (set, frozenset)):
         if name == "union":
             out_s = frozenset(recv)
@@ -536,6 +564,13 @@ def call_method(fr, recv: Any, name: str, args: list, kwargs: dict, node: ast.AS
             return None
         raise AnalysisError(f"dict method {name}")
     # --- objects ------------------------------------------------------------------------------
+    if isinstance(recv, SObj) and recv.pytype == "re.Pattern":
+        return _re_call(fr, name, recv, args, kwargs, node)
+    if isinstance(recv, SObj) and recv.pytype == "re.Match":
+        m = recv.attrs["_m"]
+        if name in ("group", "start", "end", "span", "groups", "groupdict"):
+            return getattr(m, name)(*args)
+        raise AnalysisError(f"match method {name}")
     if isinstance(recv, SObj):
         if recv.pytype == "Logger":
             return None
@@ -559,3 +594,55 @@ def _c(v: Any) -> str:
     if isinstance(v, SStr) and v.is_concrete():
         return v.concrete()
     raise AnalysisError(f"expected a concrete string argument, got {v!r}")
+
+
+def _re_call(fr, name: str, pattern: Any, args: list, kwargs: dict, node) -> Any:
+    """The re module on *concrete* strings only (constant folding); symbolic text is an ANALYSIS-ERROR."""
+    import re as _re
+
+    pai = _pai()
+
+    def conc(v):
+        if isinstance(v, str):
+            return v
+        if isinstance(v, SStr) and v.is_concrete():
+            return v.concrete()
+        raise AnalysisError(f"regular expression applied to symbolic text {v!r} ({fr.qual})")
+
+    if pattern is None:
+        if name == "escape":
+            return _re.escape(conc(args[0]))
+        if name == "compile":
+            flags = args[1] if len(args) > 1 else kwargs.get("flags", 0)
+            return SObj("re.Pattern", {"pattern": conc(args[0]), "flags": int(flags), "_p": _re.compile(conc(args[0]), int(flags))}, methods=("sub", "subn", "match", "search", "fullmatch", "findall", "split", "finditer"))
+        flags = kwargs.get("flags", 0)
+        pat = args[0]
+        if isinstance(pat, SObj) and pat.pytype == "re.Pattern":
+            comp = pat.attrs["_p"]
+        else:
+            comp = _re.compile(conc(pat), int(flags))
+        rest = args[1:]
+    else:
+        comp = pattern.attrs["_p"]
+        rest = args
+    if name in ("match", "search", "fullmatch"):
+        m = getattr(comp, name)(conc(rest[0]))
+        return None if m is None else SObj("re.Match", {"_m": m}, methods=("group", "start", "end", "span", "groups", "groupdict"))
+    if name in ("sub", "subn"):
+        repl = rest[0]
+        if isinstance(repl, (str, SStr)):
+            r = getattr(comp, name)(conc(repl), conc(rest[1]))
+        else:
+            def rf(m, repl=repl):
+                out = fr.call(repl, [SObj("re.Match", {"_m": m}, methods=("group", "start", "end", "span", "groups"))], {}, node)
+                return conc(out)
+
+            r = getattr(comp, name)(rf, conc(rest[1]))
+        return r
+    if name == "findall":
+        return comp.findall(conc(rest[0]))
+    if name == "split":
+        return comp.split(conc(rest[0]))
+    if name == "finditer":
+        return [SObj("re.Match", {"_m": m}, methods=("group", "start", "end", "span", "groups")) for m in comp.finditer(conc(rest[0]))]
+    raise AnalysisError(f"re.{name} not modelled")
